@@ -30,15 +30,15 @@ Theorem C07_projection_keeps_length : forall kind tol (S : list (rot (T:=R))) N 
 Proof. exact project_keeps_length. Qed.
 Print Assumptions C07_projection_keeps_length.
 
-(* a direction inside the closed sector is left unchanged; so projecting twice
+(* a vector whose direction (unit vector) is inside the closed sector is left unchanged; so projecting twice
    changes nothing whenever the first projection lands inside the sector *)
 Theorem C07_inside_is_fixed : forall tol (S : list (rot (T:=R))) N center v,
-  in_sector ROps tol N v = true -> project ROps idR 0 tol S N center v = v.
+  in_sector ROps tol N (vunit ROps v) = true -> project ROps idR 0 tol S N center v = v.
 Proof. exact project_fixes_inside. Qed.
 Print Assumptions C07_inside_is_fixed.
 
 Theorem C07_idempotent_partial : forall tol (S : list (rot (T:=R))) N center v,
-  in_sector ROps tol N (project ROps idR 0 tol S N center v) = true ->
+  in_sector ROps tol N (vunit ROps (project ROps idR 0 tol S N center v)) = true ->
   project ROps idR 0 tol S N center (project ROps idR 0 tol S N center v)
   = project ROps idR 0 tol S N center v.
 Proof. exact project_idempotent_if_lands_inside. Qed.
